@@ -2,6 +2,14 @@
 import socket as _socket
 
 
+class Hang(SystemExit):
+    """the tool sits in a blocking call that nothing will ever end (a recv() on a stalled connection whose timeout was never set): reported as a run that
+    does not terminate.  Derived from SystemExit so that no 'except Exception' of the tool swallows it."""
+
+    def __init__(self, what):
+        SystemExit.__init__(self, 'HANG: ' + what)
+
+
 class ScriptSock:
     """socket stub: recv(n) delivers the scripted chunks in order (each at most n bytes is the harness's
     responsibility), then the scripted end event: 'close' -> b'', 'timeout' -> socket.timeout,
@@ -28,6 +36,9 @@ class ScriptSock:
         if self.end == 'close':
             return b''
         if self.end == 'timeout':
+            # a stalled peer: the read ends with socket.timeout only on a socket that HAS a timeout; a blocking socket would wait for ever
+            if getattr(self, 'needs_timeout', False) and self.timeout is None:
+                raise Hang('recv() on a stalled connection without a timeout')
             raise _socket.timeout('timed out')
         if self.end == 'reset':
             raise ConnectionResetError(104, 'Connection reset by peer')
